@@ -719,4 +719,207 @@ Section PackParse.
       rewrite (raw_step_control _ (q_sid ++ fmt_d sid)) by reflexivity.
       reflexivity.
   Qed.
+
+  (* ---- ParseSdp2LogicContext on those media descriptions ---- *)
+  Definition vtrack (pt : Z) : track :=
+    {| tk_has := true; tk_rate := 90000; tk_base := pt; tk_orig := pt; tk_ctl := q_streamid0 |}.
+  Definition atrack (pt rate sid : Z) : track :=
+    {| tk_has := true; tk_rate := rate; tk_base := pt; tk_orig := pt; tk_ctl := q_sid ++ fmt_d sid |}.
+
+  Lemma logic_avc c s p :
+    logic_step b64_dec hex_dec c (vmd_avc s p)
+    = {| lc_raw := lc_raw c; lc_audio := lc_audio c; lc_video := vtrack 96; lc_asc := lc_asc c;
+         lc_vps := lc_vps c; lc_sps := Some s; lc_pps := Some p |}.
+  Proof.
+    unfold logic_step, vmd_avc. cbn [md_m m_media md_rtpmap rm_name md_fmtp].
+    change (beqb k_video k_audio) with false. change (beqb k_video k_video) with true.
+    change (beqb k_h264 k_h264) with true. cbv iota.
+    rewrite sps_pps_of_avc_params. reflexivity.
+  Qed.
+
+  Lemma logic_hevc c v s p :
+    logic_step b64_dec hex_dec c (vmd_hevc v s p)
+    = {| lc_raw := lc_raw c; lc_audio := lc_audio c; lc_video := vtrack 98; lc_asc := lc_asc c;
+         lc_vps := Some v; lc_sps := Some s; lc_pps := Some p |}.
+  Proof.
+    unfold logic_step, vmd_hevc. cbn [md_m m_media md_rtpmap rm_name md_fmtp].
+    change (beqb k_video k_audio) with false. change (beqb k_video k_video) with true.
+    change (beqb k_h265 k_h264) with false. change (beqb k_h265 k_h265) with true. cbv iota.
+    rewrite vps_sps_pps_of_hevc_params. reflexivity.
+  Qed.
+
+  Lemma logic_aac c rate asc sid :
+    logic_step b64_dec hex_dec c (amd_aac rate asc sid)
+    = {| lc_raw := lc_raw c; lc_audio := atrack 97 rate sid; lc_video := lc_video c;
+         lc_asc := if 2 <=? lenN asc then Some asc else None;
+         lc_vps := lc_vps c; lc_sps := lc_sps c; lc_pps := lc_pps c |}.
+  Proof.
+    unfold logic_step, amd_aac. cbn [md_m m_media md_rtpmap rm_name md_fmtp].
+    change (beqb k_audio k_audio) with true. change (equal_fold k_aac k_aac) with true. cbv iota.
+    rewrite asc_of_aac_params. reflexivity.
+  Qed.
+
+  Lemma logic_plain c pt name rate params sid :
+    (name = k_pcma /\ pt = pt_g711a) \/ (name = k_pcmu /\ pt = pt_g711u) \/ (name = k_opus /\ pt = pt_opus) ->
+    logic_step b64_dec hex_dec c (amd_plain pt name rate params sid)
+    = {| lc_raw := lc_raw c; lc_audio := atrack pt rate sid; lc_video := lc_video c;
+         lc_asc := lc_asc c; lc_vps := lc_vps c; lc_sps := lc_sps c; lc_pps := lc_pps c |}.
+  Proof. intros [[-> ->]|[[-> ->]|[-> ->]]]; reflexivity. Qed.
+
+  (* ---- which streams Pack accepts ---- *)
+  Definition video_kind (v : video_info) : option (Z * option bytes * bytes * bytes) :=
+    if (vi_pt v =? pt_avc)%Z then
+      match vi_sps v, vi_pps v with Some s, Some p => Some (pt_avc, None, s, p) | _, _ => None end
+    else if (vi_pt v =? pt_hevc)%Z then
+      match vi_sps v, vi_pps v, vi_vps v with
+      | Some s, Some p, Some vp => Some (pt_hevc, Some vp, s, p)
+      | _, _, _ => None
+      end
+    else None.
+  (* payload type, clock rate, AudioSpecificConfig *)
+  Definition audio_kind (a : audio_info) : option (Z * Z * option bytes) :=
+    if (ai_pt a =? pt_aac)%Z then
+      match ai_asc a with Some c => Some (pt_aac, ai_rate a, Some c) | None => None end
+    else if (ai_pt a =? pt_g711a)%Z then Some (pt_g711a, ai_rate a, None)
+    else if (ai_pt a =? pt_g711u)%Z then Some (pt_g711u, ai_rate a, None)
+    else if (ai_pt a =? pt_opus)%Z then Some (pt_opus, 48000%Z, None)
+    else None.
+
+  Definition exp_ctx (raw : bytes) (vk : option (Z * option bytes * bytes * bytes))
+             (ak : option (Z * Z * option bytes)) : logic_ctx :=
+    {| lc_raw := raw;
+       lc_audio := match ak with
+                   | Some (pt, rate, _) => atrack pt rate (match vk with Some _ => 1 | None => 0 end)
+                   | None => track_zero
+                   end;
+       lc_video := match vk with Some (pt, _, _, _) => vtrack pt | None => track_zero end;
+       lc_asc := match ak with
+                 | Some (_, _, Some c) => if 2 <=? lenN c then Some c else None
+                 | _ => None
+                 end;
+       lc_vps := match vk with Some (_, vp, _, _) => vp | None => None end;
+       lc_sps := match vk with Some (_, _, s, _) => Some s | None => None end;
+       lc_pps := match vk with Some (_, _, _, p) => Some p | None => None end |}.
+
+  (* the video block: its media description, or no lines at all *)
+  Lemma video_block v :
+    match video_kind v with
+    | Some (pt, vp, s, p) =>
+      exists d, block_ok (video_lines b64_enc v 0) d /\ video_lines b64_enc v 0 <> [] /\
+                forall c, logic_step b64_dec hex_dec c d
+                          = {| lc_raw := lc_raw c; lc_audio := lc_audio c; lc_video := vtrack pt; lc_asc := lc_asc c;
+                               lc_vps := match vp with Some x => Some x | None => lc_vps c end;
+                               lc_sps := Some s; lc_pps := Some p |}
+    | None => video_lines b64_enc v 0 = []
+    end.
+  Proof.
+    destruct v as [pt vps sps pps]. unfold video_kind, video_lines. cbn [vi_pt vi_vps vi_sps vi_pps].
+    destruct (pt =? pt_avc)%Z eqn:E1.
+    - destruct sps as [s|], pps as [p|]; try reflexivity.
+      exists (vmd_avc s p). split; [apply block_avc|]. split; [discriminate|]. intro c. apply logic_avc.
+    - destruct (pt =? pt_hevc)%Z eqn:E2; [|reflexivity].
+      destruct sps as [s|], pps as [p|], vps as [vp|]; try reflexivity.
+      exists (vmd_hevc vp s p). split; [apply block_hevc|]. split; [discriminate|]. intro c. apply logic_hevc.
+  Qed.
+
+  Lemma audio_block a sid : int64 (ai_rate a) -> int64 sid ->
+    match audio_kind a with
+    | Some (pt, rate, asc) =>
+      exists d, block_ok (audio_lines hex_enc a sid) d /\ audio_lines hex_enc a sid <> [] /\
+                forall c, logic_step b64_dec hex_dec c d
+                          = {| lc_raw := lc_raw c; lc_audio := atrack pt rate sid; lc_video := lc_video c;
+                               lc_asc := match asc with
+                                         | Some x => if 2 <=? lenN x then Some x else None
+                                         | None => lc_asc c
+                                         end;
+                               lc_vps := lc_vps c; lc_sps := lc_sps c; lc_pps := lc_pps c |}
+    | None => audio_lines hex_enc a sid = []
+    end.
+  Proof.
+    intros Hr Hs. destruct a as [pt rate asc]. unfold audio_kind, audio_lines. cbn [ai_pt ai_rate ai_asc] in *.
+    destruct (pt =? pt_aac)%Z eqn:E1.
+    { destruct asc as [c|]; [|reflexivity].
+      exists (amd_aac rate c sid). split; [now apply block_aac|]. split; [discriminate|]. intro c0. apply logic_aac. }
+    destruct (pt =? pt_g711a)%Z eqn:E2.
+    { exists (amd_plain pt_g711a k_pcma rate [] sid). split.
+      - apply (block_g711 pt_g711a k_pcma t_pcma); try assumption; reflexivity.
+      - split; [discriminate|]. intro c. apply logic_plain. now left. }
+    destruct (pt =? pt_g711u)%Z eqn:E3.
+    { exists (amd_plain pt_g711u k_pcmu rate [] sid). split.
+      - apply (block_g711 pt_g711u k_pcmu t_pcmu); try assumption; reflexivity.
+      - split; [discriminate|]. intro c. apply logic_plain. right. now left. }
+    destruct (pt =? pt_opus)%Z eqn:E4; [|reflexivity].
+    exists (amd_plain 101 k_opus 48000 q_two sid). split; [now apply block_opus|]. split; [discriminate|].
+    intro c. apply (logic_plain c 101 k_opus). right. now right.
+  Qed.
+
+  Lemma pack_lines_some tool v a vl al :
+    video_lines b64_enc v 0 = vl ->
+    audio_lines hex_enc a (match vl with [] => 0%Z | _ => 1%Z end) = al ->
+    vl <> [] \/ al <> [] ->
+    pack_lines b64_enc hex_enc tool v a = Some (t_header ++ [t_tool ++ tool] ++ vl ++ al).
+  Proof.
+    intros <- <- H. unfold pack_lines. cbv zeta.
+    destruct (video_lines b64_enc v 0) as [|x vl] eqn:E1.
+    - destruct (audio_lines hex_enc a 0) as [|y al] eqn:E2; [destruct H; congruence|reflexivity].
+    - reflexivity.
+  Qed.
+
+  Lemma pack_eval tool v a vl al vd ad :
+    video_lines b64_enc v 0 = vl ->
+    audio_lines hex_enc a (match vl with [] => 0%Z | _ => 1%Z end) = al ->
+    vl <> [] \/ al <> [] -> nocrlf tool = true ->
+    match vd with Some d => block_ok vl d | None => vl = [] end ->
+    match ad with Some d => block_ok al d | None => al = [] end ->
+    exists raw, sdp_pack_text b64_enc hex_enc tool v a = Some raw /\
+                sdp_pack b64_dec hex_dec b64_enc hex_enc tool v a
+                = Ok (fold_left (logic_step b64_dec hex_dec) (optl vd ++ optl ad) (logic_zero raw)).
+  Proof.
+    intros Hvl Hal Hne Ht Hv Ha.
+    exists (replace_nl (join_nl (t_header ++ [t_tool ++ tool] ++ vl ++ al))).
+    unfold sdp_pack, sdp_pack_text. rewrite (pack_lines_some tool v a vl al Hvl Hal Hne).
+    split; [reflexivity|]. unfold parse_sdp_logic. rewrite (skeleton tool vl al vd ad Ht Hv Ha). reflexivity.
+  Qed.
+
+  (* Pack followed by ParseSdp2LogicContext (which Pack itself calls) *)
+  Theorem sdp_pack_roundtrip tool v a :
+    nocrlf tool = true -> int64 (ai_rate a) ->
+    match video_kind v, audio_kind a with
+    | None, None => sdp_pack b64_dec hex_dec b64_enc hex_enc tool v a = Err err_other
+    | vk, ak => exists raw, sdp_pack_text b64_enc hex_enc tool v a = Some raw /\
+                            sdp_pack b64_dec hex_dec b64_enc hex_enc tool v a = Ok (exp_ctx raw vk ak)
+    end.
+  Proof.
+    intros Ht Hr.
+    assert (I0 : int64 0) by (unfold int64; lia). assert (I1 : int64 1) by (unfold int64; lia).
+    pose proof (video_block v) as Hv.
+    destruct (video_kind v) as [[[[vpt vvp] vs] vpp]|] eqn:Ev.
+    - destruct Hv as (dv & Hbv & Hne & Hlv).
+      pose proof (audio_block a 1 Hr I1) as Ha.
+      assert (Hsid : (match video_lines b64_enc v 0 with [] => 0%Z | _ => 1%Z end) = 1%Z)
+        by (destruct (video_lines b64_enc v 0); congruence).
+      destruct (audio_kind a) as [[[apt arate] aasc]|] eqn:Ea.
+      + destruct Ha as (da & Hba & _ & Hla).
+        destruct (pack_eval tool v a _ _ (Some dv) (Some da) eq_refl eq_refl (or_introl Hne) Ht) as (raw & Hraw & Hp).
+        * exact Hbv.
+        * rewrite Hsid. exact Hba.
+        * exists raw. split; [exact Hraw|]. rewrite Hp. cbn [optl app fold_left]. rewrite Hlv, Hla.
+          unfold exp_ctx. destruct vvp, aasc; reflexivity.
+      + destruct (pack_eval tool v a _ _ (Some dv) None eq_refl eq_refl (or_introl Hne) Ht) as (raw & Hraw & Hp).
+        * exact Hbv.
+        * rewrite Hsid. exact Ha.
+        * exists raw. split; [exact Hraw|]. rewrite Hp. cbn [optl app fold_left]. rewrite Hlv.
+          unfold exp_ctx. destruct vvp; reflexivity.
+    - pose proof (audio_block a 0 Hr I0) as Ha.
+      destruct (audio_kind a) as [[[apt arate] aasc]|] eqn:Ea.
+      + destruct Ha as (da & Hba & Hne & Hla).
+        destruct (pack_eval tool v a _ _ None (Some da) eq_refl eq_refl) as (raw & Hraw & Hp).
+        * right. rewrite Hv. exact Hne.
+        * exact Ht.
+        * exact Hv.
+        * rewrite Hv. exact Hba.
+        * exists raw. split; [exact Hraw|]. rewrite Hp. cbn [optl app fold_left]. rewrite Hla.
+          unfold exp_ctx. destruct aasc; reflexivity.
+      + unfold sdp_pack, sdp_pack_text, pack_lines. cbv zeta. rewrite Hv, Ha. reflexivity.
+  Qed.
 End PackParse.
